@@ -43,6 +43,7 @@ type udpHandler struct {
 	processed [64]int64
 	burstAt   int64    // sequence number (of sender 1) whose callback is slow; -1: none yet
 	short     sync.Map // remote address -> queue of (s,k) of datagrams too short to carry a header
+	rcap      int      // configured read buffer (0: default): a larger datagram is delivered cut down to it
 }
 
 func (h *udpHandler) OnBoot(e Engine) Action { h.eng = e; close(h.booted); return None }
@@ -59,7 +60,8 @@ func (h *udpHandler) OnTraffic(c Conn) Action {
 	if len(b) >= dgHdr {
 		s, k = int(binary.BigEndian.Uint16(b)), int(binary.BigEndian.Uint32(b[2:]))
 		n := int(binary.BigEndian.Uint32(b[6:]))
-		ok = n == len(b) && vsup.Match(b[dgHdr:], 5000+s, k*70001) < 0
+		// (a datagram larger than the configured read buffer arrives cut down to the buffer: one event, its first bytes)
+		ok = (n == len(b) || (h.rcap > 0 && n > h.rcap && len(b) == h.rcap)) && vsup.Match(b[dgHdr:], 5000+s, k*70001) < 0
 	} else if q, found := h.short.Load(raddr); found {
 		// headerless datagram: the sender told us (in order) which ones it sends
 		select {
@@ -158,7 +160,7 @@ func runUDPScenario(t *testing.T, rec *recorder, network, host string, loops int
 	rng := vsup.NewRng(seed)
 	rec.emit("Reset", "cfg", fmt.Sprintf("udp %s %s loops=%d rcap=%d", network, host, loops, rcap))
 	drops0 := udpKernelDrops()
-	h := &udpHandler{rec: rec, booted: make(chan struct{}), burstAt: -1}
+	h := &udpHandler{rec: rec, booted: make(chan struct{}), burstAt: -1, rcap: rcap}
 	pc, err := net.ListenPacket(network, net.JoinHostPort(host, "0"))
 	if err != nil {
 		rec.emit("UdpSkip", "why", err.Error())
@@ -243,6 +245,11 @@ func runUDPScenario(t *testing.T, rec *recorder, network, host string, loops int
 						n = r.Intn(rcap + 1)
 					}
 				}
+				if rcap > 0 && k == 2+s%3 {
+					// one datagram per sender that is larger than the read buffer: the kernel cuts it down to the
+					// buffer, the loop must deliver that much as one event and go on serving everybody
+					n = rcap + 1 + r.Intn(3000)
+				}
 				d := mkDgram(s, k, n)
 				// at most 4 datagrams of this sender in flight
 				deadline := time.Now().Add(3 * time.Second)
@@ -256,7 +263,7 @@ func runUDPScenario(t *testing.T, rec *recorder, network, host string, loops int
 					}
 					q.(chan [3]int) <- [3]int{s, k, n}
 				}
-				rec.emit("DSend", "s", s, "k", k, "len", n)
+				rec.emit("DSend", "s", s, "k", k, "len", n, "cap", rcap)
 				if _, err := socks[s].Write(d); err != nil {
 					rec.emit("DSendErr", "s", s, "k", k, "err", err.Error())
 				}
